@@ -349,6 +349,8 @@ def compare_across(programs, labels, results, local):
     for i, p in enumerate(programs):
         outs = {sd: results[sd][i]["out"] for sd in results}
         outs[0] = local[i]
+        if any(o and o[0] == "timeout" for o in outs.values()):
+            continue        # a time budget hit is inconclusive, never a finding
         distinct = {}
         for sd, o in outs.items():
             distinct.setdefault(json.dumps(o), []).append(sd)
